@@ -53,6 +53,42 @@ CLAIMED = {
              "iterators on in-memory datasets over threads x batch x cache, with the chunk->worker schedule actually observed through the pool hook fed to the model; "
              "1e-9 relative (the property's tolerance); independent python oracle with its own loss kernels.",
         note=NOTE_COMMON + "Floating-point re-association is bounded only empirically by the 1e-9 tolerance; the loss kernels belong to C06, served data to C08/C14; data races are outside (C18)."),
+    "C07": dict(
+        category="proof", technique=TECH_GEN, design="DESIGN.md §4 C07",
+        text="All five line searches (preamble of lsearchk_t::get, backtracking, LeMarechal, Fletcher+zoom, More-Thuente, CG_DESCENT) are modelled with the line "
+             "function as an oracle and the has_* acceptance predicates RE-TRANSLATED from src/solver/state.cpp on every run; for every oracle, interpolation, (c1,c2), t0 and "
+             "max_iterations it is proved that a non-descent direction is refused with the state untouched, that on success the returned state is the evaluation at the "
+             "returned step, that backtracking / LeMarechal / Fletcher success implies Armijo / Armijo+Wolfe / Armijo+strong Wolfe (generated predicates), step positivity "
+             "for those three, and explicit bounds on evaluations per call (13 theorems; More-Thuente positivity is `_partial` with a kernel-checked model witness of t = 0). "
+             "Correspondence by oracle replay without hooks (every trial step, verdict and returned step of the real code against the model, 1e-12); the python oracle "
+             "recomputes the advertised conditions from the user function. Success on convex quadratics is tested only (7 open known findings at the ends of the tolerance domain).",
+        note=NOTE_COMMON + "Finiteness of the step, CG_DESCENT's success cases and 'all five succeed on convex quadratics' are floating-point / convergence claims: oracle-tested, not proved."),
+    "C05": dict(
+        category="proof", technique=TECH, design="DESIGN.md §4 C05",
+        text="Value and gradient of the linear-penalty, quadratic-penalty and augmented-Lagrangian functions as coded equal the header formulas for any constraint "
+             "list, multipliers and penalty; they coincide with the objective at feasible points; the 11 constraint kinds' validity measure is |h| / max(g,0); and for EVERY "
+             "inner-solver behaviour the augmented-Lagrangian outer loop keeps miu >= 0, keeps violation(best) <= old criterion, and status converged implies |h_j| <= eps and "
+             "max(0,g_i) <= eps at the returned point with the stored constraint values recomputed from the problem (22 theorems). Correspondence: penalty functions and constraint "
+             "kinds function-level (exact / 1e-12), the outer loop by oracle replay of the trace hook (every criterion, flag, rho, lambda, miu, best state compared exactly).",
+        note=NOTE_COMMON + "The inner solver is an oracle (its answers are logged and checked to be consistent states); solver_penalty_t is outside the statement and not modelled."),
+    "C17": dict(
+        category="proof", technique="Lean 4 proof of a protocol model for unbounded workers/tasks/clients + trace inclusion of recorded executions", design="DESIGN.md §4 C17",
+        text="The pool is modelled as a labelled transition system in which every critical section is one atomic event (14 events incl. the sequential path of map); for every reachable "
+             "state and any number of workers, tasks and submitters it is proved that each task is executed at most once and exactly once when done, the worker id is below the pool size "
+             "and exclusive among running tasks, the sequential path runs each index once in order with tnum 0, map returns only after all its futures are ready, raise re-throws the first "
+             "stored exception iff asked, chunks tile [0,n), no wake-up is lost (invariant J) and a quiescent state is complete incl. destruction (12 theorems, none partial). "
+             "Correspondence: traces recorded through hook H1 under seeded schedule fuzzing are checked by the Lean driver for lock discipline, per-thread program order and for being a "
+             "path of the model; direct monitors (execution counters, tnum exclusivity, completion before return, rethrow, watchdog) are the property oracle; ThreadSanitizer in the thorough tier.",
+        note=NOTE_COMMON + "Atomicity of critical sections, std::mutex / condition_variable / packaged_task semantics and the C++ memory model are assumptions (the lock discipline is checked on every trace); "
+             "liveness beyond quiescent_complete is not proved; schedules explored on the implementation are sampled, not exhaustive."),
+    "C12": dict(
+        category="proof", technique=TECH_GEN, design="DESIGN.md §4 C12",
+        text="For every permutation produced by the shuffle and every sort meeting the contract: k-fold and random pairs are sorted, disjoint and cover the input, the k validation folds "
+             "partition the input with sizes n/k ... n/k + n%k, the random training part has round-half-up(p*n/100) elements (idiv RE-TRANSLATED from numeric.h on every run), equal seeds give "
+             "equal splits, sampling without / with replacement returns count distinct sorted / sorted members, weighted sampling never returns a zero-weight index (contract of "
+             "discrete_distribution as explicit hypothesis), gboost sampler modes, and ball points lie inside the ball (15 theorems). Exact correspondence with the implementation given the "
+             "permutations / draws reproduced with the same standard library; exhaustive n x folds x seeds grid; independent set-structure oracle.",
+        note=NOTE_COMMON + "std::shuffle / uniform / discrete / normal distributions are oracles (their outputs are inputs of the model); uniformity of the draws is not claimed."),
 }
 
 PENDING = "check under construction in this session; not claimed until its quick check is green on the unchanged tree at several seeds"
